@@ -103,6 +103,18 @@ fn reader_side(case: &str, t: i32, shp: &[u8], shx: &[u8], n: usize, written: &[
             let at = again.iter().zip(seq.iter()).position(|(a, b)| a != b).unwrap_or(again.len().min(seq.len()));
             return bad("reader.iter-after-random-access", J::obj(vec![("items", J::UInt(again.len() as u64)), ("written", J::UInt(n as u64)), ("first_difference_at", J::UInt(at as u64))]));
         }
+        // ... a random access at the LAST index, then a new iteration: all n shapes again, hint n
+        if n >= 2 {
+            let _ = with_idx.read_nth_shape(n - 1);
+            let mut it = with_idx.iter_shapes();
+            let hint = it.size_hint();
+            let first = it.next().map(|r| r.map(|s| s.d()));
+            let rest = it.count();
+            let ok = hint == (n, Some(n)) && matches!(&first, Some(Ok(d)) if *d == seq[0]) && rest == n - 1;
+            if !ok {
+                return bad("reader.iter-after-nth(last)", J::obj(vec![("hint_lo", J::UInt(hint.0 as u64)), ("items_after_the_first", J::UInt(rest as u64)), ("written", J::UInt(n as u64))]));
+            }
+        }
         // ... and after seek(k): the hint is the number of shapes still to come, at every step
         if n >= 2 {
             let k = 1 + n / 3;
@@ -132,7 +144,7 @@ fn reader_side(case: &str, t: i32, shp: &[u8], shx: &[u8], n: usize, written: &[
                 return bad("reader.iter-after-seek", J::obj(vec![("seek", J::UInt(k as u64)), ("items", J::UInt(got as u64)), ("expected", J::UInt((n - k) as u64))]));
             }
         }
-        for i in [n, n + 1, n + 7] {
+        for i in [n, n + 1, n + 7, usize::MAX - 1, usize::MAX] {
             if with_idx.read_nth_shape(i).is_some() {
                 return bad("reader.nth-past-end", J::obj(vec![("index", J::UInt(i as u64))]));
             }
@@ -183,8 +195,8 @@ pub fn run(ctx: &Ctx, with_reader_side: bool) -> Report {
             Some(65_537) // record numbers beyond 2^16
         } else if matches!(t, 3 | 15 | 31) && i == 36 && !with_reader_side {
             Some(70_000) // two parts of 70 000 vertices: the second part starts beyond vertex 2^16
-        } else if t == 1 && (i == 34 || i == 35) && with_reader_side {
-            Some([16_385, 32_769][i - 34]) // index entries beyond 2^14 / 2^15
+        } else if t == 1 && (i == 34 || i == 35 || i == 37) && with_reader_side {
+            Some([16_385, 32_769, 0, 65_537][i - 34]) // index entries beyond 2^14 / 2^15 / 2^16
         } else {
             None
         };
@@ -311,6 +323,9 @@ pub fn run(ctx: &Ctx, with_reader_side: bool) -> Report {
                     let mut w = if no_index { ShapeWriter::new(&mut shp) } else { ShapeWriter::with_shx(&mut shp, &mut shx) };
                     if pre_finalize {
                         w.finalize()?;
+                        if i % 22 == 5 {
+                            w.finalize()?; // twice: the second one has nothing to commit
+                        }
                     }
                     for (k, s) in shapes.iter().enumerate() {
                         if bulk_tail == Some(k) {
@@ -319,6 +334,9 @@ pub fn run(ctx: &Ctx, with_reader_side: bool) -> Report {
                         write_one(&mut w, s)?;
                         if mid_finalize == Some(k + 1) {
                             w.finalize()?;
+                            if i % 10 == 2 {
+                                w.finalize()?;
+                            }
                         }
                     }
                     if let Some(k) = bulk_tail {
